@@ -5,6 +5,7 @@ import (
 	"os"
 	"strings"
 	"testing"
+	. "verifharness/hist"
 
 	"github.com/google/reftable"
 	"pgregory.net/rapid"
@@ -41,10 +42,10 @@ func drawC12Tx(t *rapid.T, hs int) HTx {
 			r.Kind = gen.KDel
 		case 2, 3:
 			r.Kind = gen.KVal
-			r.Val = poolHash(t, hs)
+			r.Val = PoolHash(t, hs)
 		case 4:
 			r.Kind = gen.KPeeled
-			r.Val, r.Peeled = poolHash(t, hs), poolHash(t, hs)
+			r.Val, r.Peeled = PoolHash(t, hs), PoolHash(t, hs)
 		case 5:
 			r.Kind = gen.KSym
 			r.Target = Str(rapid.SampledFrom(c12Names).Draw(t, "target"))
